@@ -47,6 +47,9 @@ structure Desc where
   connReset : Bool
   /-- `isinstance(e, ConnectionRefusedError)` -/
   connRefused : Bool
+  /-- a numeric `Retry-After` header of the failed response (`e.headers['Retry-After']`, seconds), if it carries one.  The code
+  does NOT read it: the wait depends only on the number of tries and the random draw (see `C21.every_sleep_within_bounds`) -/
+  retryAfter : Option Nat
   deriving DecidableEq, Repr
 
 /-- an exception: `nil` stands for `None` (no `os_error`, no `__cause__`) -/
@@ -140,6 +143,12 @@ inductive Result where
   /-- the script of `f` ended while the loop wanted another call -/
   | scriptEnded (calls : Nat) (sleeps : List Nat)
   deriving DecidableEq, Repr
+
+/-- the sleeps (ms) requested during a run, in order -/
+def Result.sleeps : Result → List Nat
+  | .returned _ _ s => s
+  | .raised _ _ s => s
+  | .scriptEnded _ s => s
 
 /-- the `while True:` loop, `tries` failures so far -/
 def loop (tries : Nat) (sleeps : List Nat) : List Attempt → Result
